@@ -143,6 +143,27 @@ func (s *State) decided(c *Ctx, cond *Term) (bool, bool) {
 	if lits[neg] {
 		return false, true
 	}
+	// x == k1 is known and the branch asks x == k2
+	if cond.Op == OEq {
+		x, k := cond.Args[0], cond.Args[1]
+		if x.IsConst() {
+			x, k = k, x
+		}
+		if k.IsConst() && !x.IsConst() {
+			for _, a := range s.pc {
+				if a.Op != OEq {
+					continue
+				}
+				y, k2 := a.Args[0], a.Args[1]
+				if y.IsConst() {
+					y, k2 = k2, y
+				}
+				if y == x && k2.IsConst() && k2.Val != k.Val {
+					return false, true
+				}
+			}
+		}
+	}
 	for _, a := range s.pc {
 		if a.Op != OOr || len(a.Args) != 2 {
 			continue
